@@ -112,6 +112,22 @@ Section C20.
       fsm_parse parse_float i argv = PAccept opts' args' ->
       fsm_parse parse_float (after_run i opts' args') argv = PAccept opts' args'.
   Proof. exact (rerun_same_line_program parse_float getenv). Qed.
+
+  (** (i-5) fillContainers as the library runs it since D11 — the bound containers in the order of their names, the first
+      failing Set aborting the pass and leaving the containers as they are at that point ([Cmd.fill_partial]) — succeeds
+      exactly when the model's pass in declaration order does, with the same containers; so what an accepting parse
+      leaves behind ([Cmd.fsm_parse_state], the state a second Run of the object starts from, also after a conversion
+      error) is what [fsm_parse] returns. *)
+  Theorem C20_names_order_pass_agrees :
+    forall cs mk bs cs',
+      fill parse_float cs 0 mk bs = Some cs' <-> fill_partial parse_float cs (fill_order cs mk bs) mk bs = (cs', true).
+  Proof. exact (fill_partial_iff_fill parse_float). Qed.
+
+  Theorem C20_state_after_an_accepted_line :
+    forall i argv opts' args',
+      fsm_parse parse_float i argv = PAccept opts' args' ->
+      fsm_parse_state parse_float i argv = after_run i opts' args'.
+  Proof. exact (fsm_parse_state_accept parse_float). Qed.
 End C20.
 
 Example C20_rerun_with_env_refuted : q12_second_verdict = Some false.
@@ -188,5 +204,7 @@ Print Assumptions C20_sorted_visit_is_a_function_args.
 Print Assumptions C20_fill_order_of_an_accepted_line_is_unique.
 Print Assumptions C20_rerun_same_line.
 Print Assumptions C20_rerun_same_line_program.
+Print Assumptions C20_names_order_pass_agrees.
+Print Assumptions C20_state_after_an_accepted_line.
 Print Assumptions C20_noninterference.
 Print Assumptions C20_shared_store_is_read_only.
